@@ -157,6 +157,19 @@ def oracle_grad(case):
     if not np.array_equal(P_after, P_keep) or not np.array_equal(pred_after, pred_keep) or not np.array_equal(est.labels_, pred_keep):
         raise Violation(f"{label}: after the caller wrote into the arrays returned by predict_proba / predict, the model predicts "
                         f"differently (the returned arrays are shared with the model's state)")
+    # the same estimator is then fitted on fewer columns of the same data (after a feature selection, say): every
+    # configuration that is valid for the narrower data must fit there too
+    d_all = np.shape(X)[1]
+    grp = s.get("groups")
+    need = (max([i for g_ in grp for i in g_] + [-1]) + 1) if grp else 1
+    aff_ = s.get("aff")
+    if y is None and d_all >= 2 and need < d_all and s.get("feature_mask") is None and not (aff_ and aff_.get("name") == "haversine"):
+        d2 = max(need, 1, d_all - 1 - s["random_state"] % 2)
+        d2 = min(d2, d_all - 1)
+        Xn = np.ascontiguousarray(np.asarray(X)[:, :d2])
+        call(label, f"fit on the first {d2} of {d_all} columns after the fit on all of them", est.fit, Xn)
+        if np.shape(est.labels_) != (n,):
+            raise Violation(f"{label}: refitted on {d2} columns, labels_ has shape {np.shape(est.labels_)}")
     nondefault = sum(1 for k in s if k not in ("cls", "n", "d", "x", "random_state", "max_iter", "learning_rate"))
     return {"nontrivial": bool(n >= 2 and nondefault >= 2),
             "classes": [s["cls"], "dtype:" + dtype, f"K={K}"], "note": {"labels": labels.tolist()[:12], "score": sc}}
